@@ -235,15 +235,15 @@ theorem safeNodeUnlock_complete (lock msgHigh : Gen.Bft.View) (hh : lock.Height 
 theorem genUnlock_complete (w y : Bft.View) (h : w < y) : genUnlock w y = true :=
   safeNodeUnlock_complete (hdrOf w phase_PROPOSE_VOTE) (hdrOf y phase_PROPOSE_VOTE) rfl h
 
-theorem adoptHigher_complete (lock new : Gen.Bft.View) (hh : lock.Height = new.Height)
+theorem adoptHigher_complete (lock new voteHdr : Gen.Bft.View) (hh : lock.Height = new.Height)
     (h : lock.RootHeight < new.RootHeight ∨ (lock.RootHeight = new.RootHeight ∧ lock.Round < new.Round)) :
-    adoptHigher true lock new = true ∧ adoptHigher false lock new = true := by
+    adoptHigher true lock new voteHdr = true ∧ adoptHigher false lock new voteHdr = true := by
   unfold adoptHigher
   simp
   rw [viewLess_iff]; omega
 
 theorem genAdoptOk_complete (w y : Bft.View) (h : w < y) : genAdoptOk w y = true :=
-  (adoptHigher_complete (hdrOf w phase_PROPOSE_VOTE) (hdrOf y phase_PROPOSE_VOTE) rfl h).1
+  (adoptHigher_complete (hdrOf w phase_PROPOSE_VOTE) (hdrOf y phase_PROPOSE_VOTE) _ rfl h).1
 
 /-- the PRECOMMIT message of the leader a replica follows, carrying the PROPOSE_VOTE certificate of the round, is accepted -/
 theorem genCertBound_accepts (v : Bft.View) : genCertBound v true v = true := by
